@@ -428,6 +428,20 @@ func (x *inst) step(op Op, prog []Op, seedName string, record bool) stepOut {
 		// continue with state-only matching
 		v = model.Val{K: model.None}
 	}
+	if !model.Known(cmd) {
+		// outside the reference model (SUBSCRIBE, PUBLISH, RCONF, MEMBER, unknown names): only the
+		// reply's well-formedness is checked; the state is whatever the implementation made of it
+		if v.K == model.None && derr == nil {
+			out.viol = append(out.viol, mkV("nil-reply", cmd, shape, "", fmt.Sprintf("%s: executor returned no result (the client gets -unknown error)", op),
+				x.mkReplay(prog, seedName, "a reply", "<no-result>", "")))
+		}
+		out.hash = x.stateHash(implC)
+		out.changed = true
+		if len(x.w.Live()) > 0 && cmd == "subscribe" {
+			out.poisoned = true // leaves watcher goroutines behind: do not build on this instance
+		}
+		return out
+	}
 	next, replyWhy, stateWhy := applyModel(x.ks, op.A, v, implC, x.spec.TTLTolMs)
 	if replyWhy != "" && derr == nil {
 		kind := "reply-mismatch"
@@ -755,6 +769,12 @@ func worker(tb []byte, progress func()) []byte {
 
 // ------------------------------------------------------------------ coordinator
 
+var seqAssumptions = []string{
+	"reference model (verif/model) encodes the Redis command reference; rules in DESIGN.md Appendix B",
+	"instrumentation is generated from the current /repo tree by verif/instr (sync/time/go/select shims)",
+	"Go map iteration order and uuid are normalised in the oracle, not enumerated",
+}
+
 func runSpec(prop string) int {
 	tier := os.Getenv("VERIF_TIER")
 	if tier != "thorough" {
@@ -765,6 +785,12 @@ func runSpec(prop string) int {
 		spec.Depth = d
 	}
 	rep := ev.NewReport(prop, "model_checking")
+	cov := runSpecInto(rep, prop, tier, spec)
+	return rep.Finish(cov, seqAssumptions)
+}
+
+// runSpecInto explores spec, adds violations to rep and returns the coverage map.
+func runSpecInto(rep *ev.Report, prop, tier string, spec *Spec) map[string]interface{} {
 	p := &pool.Pool{Handler: "seqmc", N: nWorkers(), Timeout: 25 * time.Second, MemMB: 6144}
 	deadline := time.Now().Add(spec.Budget)
 
@@ -963,11 +989,7 @@ func runSpec(prop string) int {
 		"rule":                          spec.Rule,
 		"variants":                      variants,
 	}
-	return rep.Finish(cov, []string{
-		"reference model (verif/model) encodes the Redis command reference; rules in DESIGN.md Appendix B",
-		"instrumentation is generated from the current /repo tree by verif/instr (sync/time/go/select shims)",
-		"Go map iteration order and uuid are normalised in the oracle, not enumerated",
-	})
+	return cov
 }
 
 func firstLine(s string) string {
